@@ -1,6 +1,6 @@
 """C11  A task query matches exactly the workflows that contain the described flow.
 
-proof stage     coq/props/C11.v
+proof stage     coq/props/C11.v, coq/props/C11_mono.v
 correspondence  TransformationQuery(...).sparql() of /repo, read back into a list of
                 conjuncts, vs the Gallina generator Query/Gen.v on the same task (up to
                 renaming of variables); verdicts of rdflib on the generated query, of
@@ -1810,7 +1810,7 @@ def case_payload(L, Ws, case, ob=None, wi=None):
 
 
 MODEL_FILES = ["Query/Bgp.v", "Query/Gen.v", "Query/GenProofs.v", "Query/Spec.v", "Query/Assign.v", "Query/TaskSpec.v",
-               "Query/Check.v"]
+               "Query/Check.v", "Query/MonoInner.v"]
 
 
 def ensure_model_built() -> None:
@@ -1838,6 +1838,7 @@ def main(tier: str, seed: int, replay: str | None = None) -> int:
     C.ensure_built()
     ensure_model_built()
     rep.proof_stage()
+    rep.proof_stage("C11_mono")     # dropping an inner step (Query/MonoInner.v, uses C09's Graph/Closure.v)
     rng = random.Random(seed)
     stats = Counter()
     if replay:
